@@ -255,7 +255,7 @@ theorem fullRender_list_row (o : ROpts) (v : View) (k : Nat) (hk : k < maxItems 
     simp
 
 theorem promptRow_prefix (o : ROpts) (input : Str) (found total nsel : Nat)
-    (hinfo : o.info ≠ .inline) (hp : o.prompt.length ≤ o.W - 2) (hfit : o.prompt.length + input.length ≤ o.W) :
+    (hinfo : o.info ≠ .inline) (hinfo2 : o.info ≠ .inlineRight) (hp : o.prompt.length ≤ o.W - 2) (hfit : o.prompt.length + input.length ≤ o.W) :
     (promptRow o input found total nsel).take (o.prompt.length + input.length) = o.prompt ++ input := by
   have hrow : promptRow o input found total nsel = rowOf o.W (o.prompt ++ input) := by
     unfold promptRow
